@@ -591,8 +591,12 @@ impl RobotBody {
 
     fn check_required(&self, i: usize, j: usize, skip: &HashSet<usize>,
                       safety: &SafetyDistances) -> bool {
+        // A pair needs no check only if NEITHER of its members moved: joints in the skip set,
+        // environment objects and the base stay where they were. A moved part must still be
+        // checked against every part that stayed.
+        let unmoved = |k: usize| skip.contains(&k) || k >= ENV_START_IDX || k == J_BASE;
         // Use the same distances the tasks are evaluated with (near() passes its own)
-        !skip.contains(&i) && !skip.contains(&j) &&
+        !(unmoved(i) && unmoved(j)) &&
             safety.min_distance(i as u16, j as u16) > &NEVER_COLLIDES
     }    
 }
